@@ -8,7 +8,7 @@ Definition is_some {A} (o : option A) : bool := match o with Some _ => true | No
 (* the exact class of (configuration, attribute, value, state) on which the getter returns the value just set *)
 Definition get_set_guard (c : cfg) (a : attr) (v : val) (s : layer) : bool :=
   match a, v with
-  | ABlend, VInt z => negb (is_group (l_kind s)) || is_some (l_lsct s) || negb (z =? bm_pass)
+  | ABlend, VInt z => negb (is_group (l_kind s)) || is_some (setting c s) || negb (z =? bm_pass)
   | AClip, VBool b => fix_clip c || l_attached s || Bool.eqb b (l_clip s)
   | ALock, VInt z => fix_lock c || is_some (l_lspf s) || (z =? 0)
   | _, _ => true
@@ -25,20 +25,20 @@ Definition move_guard_y (v : Z) (s : layer) : bool :=
   negb ((kind_code (l_kind s) =? 6) && (v + get_height s =? 0)).
 
 (* every Group object the library builds has the divider block *)
-Definition divider_ok (s : layer) : bool := negb (is_group (l_kind s)) || is_some (l_lsct s).
+Definition divider_ok (c : cfg) (s : layer) : bool := negb (is_group (l_kind s)) || is_some (setting c s).
 
 (* the group's divider writes its blend mode: it has a signature, or no blend mode to lose *)
-Definition divider_signed (s : layer) : bool :=
+Definition divider_signed (c : cfg) (s : layer) : bool :=
   negb (is_group (l_kind s)) ||
-  match l_lsct s with Some d => sd_sig d || negb (is_some (sd_blend d)) | None => true end.
+  match setting c s with Some d => sd_sig d || negb (is_some (sd_blend d)) | None => true end.
 
 (* text that UTF-16 returns unchanged *)
 Definition utf16_stable (l : list Z) : bool := list_eqb (utf16_rt l) l.
 
-Definition persist_get_guard (a : attr) (s : layer) : bool :=
+Definition persist_get_guard (c : cfg) (a : attr) (s : layer) : bool :=
   match a with
   | AName => match l_luni s with Some u => utf16_stable u | None => true end
-  | ABlend => divider_signed s
+  | ABlend => divider_signed c s
   | _ => true
   end.
 
@@ -47,7 +47,7 @@ Definition persist_set_guard (c : cfg) (a : attr) (v : val) (s : layer) : bool :
   | AName, VStr l => utf16_stable l
   | ABlend, VInt _ =>
       negb (is_group (l_kind s)) || fix_group c ||
-      match l_lsct s with Some d => sd_sig d | None => true end
+      match setting c s with Some d => sd_sig d | None => true end
   | _, _ => true
   end.
 
@@ -66,6 +66,34 @@ Proof. reflexivity. Qed.
 
 Ltac inv H := inversion H; subst; clear H.
 
+(* ------------------------------------------------------------------ the blend mode setter, summarised *)
+Lemma set_blend_form c v s s' :
+  set_blend c v s = AOk s' -> valid_blend v = true /\ exists rb d k, s' = with_blend s rb d k.
+Proof.
+  unfold set_blend. destruct (valid_blend v); simpl; [|discriminate]. intro H. split; [reflexivity|].
+  destruct (is_group (l_kind s)); [destruct (fix_lsdk c); [destruct (l_lsdk s)|]|]; inv H; eauto.
+Qed.
+
+(* on a group: the record gets NORMAL for PASS_THROUGH, the divider Group._setting sees gets the value *)
+Lemma set_blend_group c v s s' :
+  set_blend c v s = AOk s' -> is_group (l_kind s) = true ->
+  setting c s' = option_map (upd_div c v) (setting c s) /\
+  l_rblend s' = (if v =? bm_pass then bm_norm else v).
+Proof.
+  unfold set_blend, setting. destruct (valid_blend v); simpl; [|discriminate]. intros H G. rewrite G in H.
+  destruct (fix_lsdk c); [destruct (l_lsdk s)|]; inv H; simpl; split; reflexivity.
+Qed.
+
+Lemma set_blend_plain c v s s' :
+  set_blend c v s = AOk s' -> is_group (l_kind s) = false -> s' = with_blend s v (l_lsct s) (l_lsdk s).
+Proof.
+  unfold set_blend. destruct (valid_blend v); simpl; [|discriminate]. intros H G. rewrite G in H. now inv H.
+Qed.
+
+Lemma setting_with_other c s s' :
+  l_lsct s' = l_lsct s -> l_lsdk s' = l_lsdk s -> setting c s' = setting c s.
+Proof. unfold setting. intros -> ->. reflexivity. Qed.
+
 (* ------------------------------------------------------------------ what a successful set leaves alone *)
 Definition same_rest (s s' : layer) : Prop :=
   l_kind s' = l_kind s /\ l_pixels s' = l_pixels s /\ l_iopa s' = l_iopa s /\ l_tp s' = l_tp s /\
@@ -81,8 +109,7 @@ Proof.
   - unfold set_name in H. destruct (Z.of_nat (length l) <? 256); inv H. unfold same_rest; repeat split.
   - inv H. unfold same_rest; repeat split.
   - unfold set_opacity in H. destruct ((0 <=? z) && (z <=? 255)); inv H. unfold same_rest; repeat split.
-  - unfold set_blend in H. destruct (negb (valid_blend z)); [discriminate|].
-    destruct (is_group (l_kind s)); inv H; unfold same_rest; repeat split.
+  - apply set_blend_form in H as [_ (rb & d & k & ->)]. unfold same_rest; repeat split.
   - unfold set_left in H. destruct (l_kind s) eqn:K; inv H; unfold same_rest; simpl; repeat split; assumption.
   - unfold set_top in H. destruct (l_kind s) eqn:K; inv H; unfold same_rest; simpl; repeat split; assumption.
   - unfold set_clip in H. destruct (fix_clip c || l_attached s); inv H; unfold same_rest; repeat split.
@@ -112,8 +139,9 @@ Proof.
   - intros _. eexists; reflexivity.
   - intros [s' H]. unfold set_opacity in H. destruct ((0 <=? z) && (z <=? 255)); [reflexivity|discriminate].
   - intro H. unfold set_opacity. rewrite H. eexists; reflexivity.
-  - intros [s' H]. unfold set_blend in H. destruct (valid_blend z); [reflexivity|discriminate].
-  - intro H. unfold set_blend. rewrite H. simpl. destruct (is_group (l_kind s)); eexists; reflexivity.
+  - intros [s' H]. apply set_blend_form in H as [H _]. exact H.
+  - intro H. unfold set_blend. rewrite H. simpl.
+    destruct (is_group (l_kind s)); [destruct (fix_lsdk c); [destruct (l_lsdk s)|]|]; eexists; reflexivity.
   - intros [s' H]. unfold set_left in H. destruct (l_kind s); try discriminate; reflexivity.
   - intro H. unfold set_left. destruct (l_kind s); try discriminate; eexists; reflexivity.
   - intros [s' H]. unfold set_top in H. destruct (l_kind s); try discriminate; reflexivity.
@@ -124,18 +152,20 @@ Qed.
 
 (* ------------------------------------------------------------------ get after set *)
 Lemma get_set c a v s s' :
-  set c a v s = AOk s' -> get_set_guard c a v s = true -> get a s' = v.
+  set c a v s = AOk s' -> get_set_guard c a v s = true -> get c a s' = v.
 Proof.
   intros H G. destruct a, v; simpl in H; try discriminate.
   - unfold set_name in H. destruct (Z.of_nat (length l) <? 256); inv H. reflexivity.
   - inv H. reflexivity.
   - unfold set_opacity in H. destruct ((0 <=? z) && (z <=? 255)); inv H. reflexivity.
-  - unfold set_blend in H. destruct (negb (valid_blend z)); [discriminate|].
-    simpl in G. unfold get, get_blend.
-    destruct (is_group (l_kind s)) eqn:K; inv H; simpl; rewrite K.
-    + destruct (l_lsct s); simpl in *; [reflexivity|].
+  - simpl in G. unfold get, get_blend.
+    pose proof (set_blend_form _ _ _ _ H) as [_ (rb & d & k & E)].
+    assert (K' : l_kind s' = l_kind s) by (subst s'; reflexivity). rewrite K'.
+    destruct (is_group (l_kind s)) eqn:K.
+    + destruct (set_blend_group _ _ _ _ H K) as [S R]. rewrite S, R.
+      destruct (setting c s); simpl in *; [reflexivity|].
       destruct (z =? bm_pass); [discriminate|reflexivity].
-    + reflexivity.
+    + rewrite (set_blend_plain _ _ _ _ H K). reflexivity.
   - unfold set_left in H. unfold get, get_left, get_box.
     destruct (l_kind s) eqn:K; inv H; simpl; rewrite K; reflexivity.
   - unfold set_top in H. unfold get, get_top, get_box.
@@ -150,14 +180,15 @@ Qed.
 
 (* the guard is exact: outside it the getter does NOT return the value *)
 Lemma get_set_exact c a v s s' :
-  set c a v s = AOk s' -> get_set_guard c a v s = false -> get a s' <> v.
+  set c a v s = AOk s' -> get_set_guard c a v s = false -> get c a s' <> v.
 Proof.
   intros H G. destruct a, v; simpl in H; try discriminate; simpl in G; try discriminate.
-  - unfold set_blend in H. destruct (negb (valid_blend z)); [discriminate|].
-    apply orb_false_iff in G as [G G3]. apply orb_false_iff in G as [G1 G2].
+  - apply orb_false_iff in G as [G G3]. apply orb_false_iff in G as [G1 G2].
     apply negb_false_iff in G1. apply negb_false_iff in G3. apply Z.eqb_eq in G3. subst z.
-    rewrite G1 in H. destruct (l_lsct s) eqn:E; [discriminate|]. inv H.
-    unfold get, get_blend. simpl. rewrite G1. simpl. discriminate.
+    pose proof (set_blend_form _ _ _ _ H) as [_ (rb & d & k & E)].
+    assert (K' : l_kind s' = l_kind s) by (subst s'; reflexivity).
+    destruct (set_blend_group _ _ _ _ H G1) as [S R].
+    unfold get, get_blend. rewrite K', G1, S, R. destruct (setting c s); [discriminate|]. simpl. discriminate.
   - unfold set_clip in H.
     apply orb_false_iff in G as [G G3]. rewrite G in H. inv H.
     unfold get, get_clip. intro X. inv X. rewrite eqb_reflx in G3. discriminate.
@@ -169,7 +200,7 @@ Qed.
 
 (* ------------------------------------------------------------------ frame *)
 Lemma frame c a b v s s' :
-  a <> b -> set c a v s = AOk s' -> frame_guard a b s = true -> get b s' = get b s.
+  a <> b -> set c a v s = AOk s' -> frame_guard a b s = true -> get c b s' = get c b s.
 Proof.
   intros N H G. destruct a, v; simpl in H; try discriminate.
   - unfold set_name in H. destruct (Z.of_nat (length l) <? 256); inv H.
@@ -181,8 +212,7 @@ Proof.
       destruct (l_kind s) eqn:K; try reflexivity. unfold frame_guard in G. rewrite K in G. discriminate.
   - unfold set_opacity in H. destruct ((0 <=? z) && (z <=? 255)); inv H.
     destruct b; try congruence; reflexivity.
-  - unfold set_blend in H. destruct (negb (valid_blend z)); [discriminate|].
-    destruct (is_group (l_kind s)); inv H; destruct b; try congruence; reflexivity.
+  - apply set_blend_form in H as [_ (rb & d & k & ->)]. destruct b; try congruence; reflexivity.
   - unfold set_left in H.
     destruct (l_kind s) eqn:K; inv H; destruct b; try congruence; try reflexivity;
       unfold get, get_top, get_box; simpl; rewrite K; reflexivity.
@@ -258,7 +288,7 @@ Definition lastval (k : kind) (a : attr) (l : sets) (d : val) : val :=
   fold_left (fun d av => if attr_eqb a (fst av) && accepts k (fst av) (snd av) then snd av else d) l d.
 
 (* invariants of the setters *)
-Lemma set_divider_ok c a v s s' : set c a v s = AOk s' -> divider_ok s = true -> divider_ok s' = true.
+Lemma set_divider_ok c a v s s' : set c a v s = AOk s' -> divider_ok c s = true -> divider_ok c s' = true.
 Proof.
   intros H D. pose proof (set_same_rest _ _ _ _ _ H) as [K _]. unfold divider_ok in *. rewrite K.
   destruct (is_group (l_kind s)) eqn:G; [|reflexivity]. simpl in *.
@@ -266,8 +296,7 @@ Proof.
   - unfold set_name in H. destruct (Z.of_nat (length l) <? 256); inv H. assumption.
   - inv H. assumption.
   - unfold set_opacity in H. destruct ((0 <=? z) && (z <=? 255)); inv H. assumption.
-  - unfold set_blend in H. destruct (negb (valid_blend z)); [discriminate|]. rewrite G in H. inv H. simpl.
-    destruct (l_lsct s); [reflexivity|discriminate].
+  - destruct (set_blend_group _ _ _ _ H G) as [S _]. rewrite S. destruct (setting c s); [reflexivity|discriminate].
   - unfold set_left in H. destruct (l_kind s); inv H; assumption.
   - unfold set_top in H. destruct (l_kind s); inv H; assumption.
   - unfold set_clip in H. destruct (fix_clip c || l_attached s); inv H; assumption.
@@ -275,7 +304,7 @@ Proof.
 Qed.
 
 Lemma set_divider_signed c a v s s' :
-  fix_group c = true -> set c a v s = AOk s' -> divider_signed s = true -> divider_signed s' = true.
+  fix_group c = true -> set c a v s = AOk s' -> divider_signed c s = true -> divider_signed c s' = true.
 Proof.
   intros F H D. pose proof (set_same_rest _ _ _ _ _ H) as [K _]. unfold divider_signed in *. rewrite K.
   destruct (is_group (l_kind s)) eqn:G; [|reflexivity]. simpl in *.
@@ -283,8 +312,8 @@ Proof.
   - unfold set_name in H. destruct (Z.of_nat (length l) <? 256); inv H. assumption.
   - inv H. assumption.
   - unfold set_opacity in H. destruct ((0 <=? z) && (z <=? 255)); inv H. assumption.
-  - unfold set_blend in H. destruct (negb (valid_blend z)); [discriminate|]. rewrite G in H. inv H. simpl.
-    destruct (l_lsct s); [|reflexivity]. simpl. rewrite F. reflexivity.
+  - destruct (set_blend_group _ _ _ _ H G) as [S _]. rewrite S. destruct (setting c s); [|reflexivity].
+    simpl. rewrite F. reflexivity.
   - unfold set_left in H. destruct (l_kind s); inv H; assumption.
   - unfold set_top in H. destruct (l_kind s); inv H; assumption.
   - unfold set_clip in H. destruct (fix_clip c || l_attached s); inv H; assumption.
@@ -292,7 +321,7 @@ Proof.
 Qed.
 
 (* with the three repairs the only residue of the get/set guard is the group without a divider block *)
-Lemma guard_fixed a v s : divider_ok s = true -> get_set_guard fixed_cfg a v s = true.
+Lemma guard_fixed a v s : divider_ok fixed_cfg s = true -> get_set_guard fixed_cfg a v s = true.
 Proof.
   unfold divider_ok. intro D. destruct a, v; try reflexivity. simpl.
   destruct (is_group (l_kind s)); simpl in *; [rewrite D|]; reflexivity.
@@ -312,7 +341,7 @@ Lemma history c a l : forall s,
   (forall s1 s2 b v, set c b v s1 = AOk s2 ->
      (forall b' v', get_set_guard c b' v' s1 = true) -> (forall b' v', get_set_guard c b' v' s2 = true)) ->
   derived_pos (l_kind s) a = false ->
-  get a (run_sets c l s) = lastval (l_kind s) a l (get a s).
+  get c a (run_sets c l s) = lastval (l_kind s) a l (get c a s).
 Proof.
   induction l as [|[b v] l IH]; intros s G P D; [reflexivity|].
   unfold run_sets, lastval in *. simpl fold_left. unfold step at 2. simpl apply.
@@ -333,18 +362,18 @@ Proof.
 Qed.
 
 Lemma history_fixed a l s :
-  divider_ok s = true -> derived_pos (l_kind s) a = false ->
-  get a (run_sets fixed_cfg l s) = lastval (l_kind s) a l (get a s).
+  divider_ok fixed_cfg s = true -> derived_pos (l_kind s) a = false ->
+  get fixed_cfg a (run_sets fixed_cfg l s) = lastval (l_kind s) a l (get fixed_cfg a s).
 Proof.
   intros D P. apply history; [intros; apply guard_fixed; assumption| |assumption].
   intros s1 s2 b v E H b' v'. apply guard_fixed.
-  destruct (divider_ok s1) eqn:D1.
+  destruct (divider_ok fixed_cfg s1) eqn:D1.
   - eapply set_divider_ok; eauto.
   - (* unreachable start, but the statement is per step: derive from the guard on s1 *)
     exfalso. revert D1. unfold divider_ok.
     specialize (H ABlend (VInt bm_pass)). simpl in H.
     destruct (is_group (l_kind s1)); simpl in *; [|discriminate].
-    destruct (l_lsct s1); simpl in *; discriminate.
+    destruct (setting fixed_cfg s1); simpl in *; discriminate.
 Qed.
 
 Lemma run_sets_kind c l : forall s, l_kind (run_sets c l s) = l_kind s.
@@ -361,7 +390,7 @@ Proof.
   destruct (set c b v s) eqn:E; [|reflexivity]. apply (set_same_rest _ _ _ _ _ E).
 Qed.
 
-Lemma run_sets_divider_ok c l : forall s, divider_ok s = true -> divider_ok (run_sets c l s) = true.
+Lemma run_sets_divider_ok c l : forall s, divider_ok c s = true -> divider_ok c (run_sets c l s) = true.
 Proof.
   induction l as [|[b v] l IH]; intros s D; [assumption|].
   unfold run_sets in *. simpl. apply IH. unfold step. simpl.
@@ -369,7 +398,7 @@ Proof.
 Qed.
 
 Lemma run_sets_divider_signed c l : fix_group c = true -> forall s,
-  divider_signed s = true -> divider_signed (run_sets c l s) = true.
+  divider_signed c s = true -> divider_signed c (run_sets c l s) = true.
 Proof.
   intro F. induction l as [|[b v] l IH]; intros s D; [assumption|].
   unfold run_sets in *. simpl. apply IH. unfold step. simpl.
@@ -390,6 +419,12 @@ Proof.
   f_equal. apply IH. intros c Hc. apply N. right. exact Hc.
 Qed.
 
+Lemma setting_stored c s : setting c (stored s) = option_map sdiv_rt (setting c s).
+Proof. unfold setting. simpl. destruct (fix_lsdk c); [destruct (l_lsdk s)|]; reflexivity. Qed.
+
+Lemma sdiv_rt_blend d : sd_sig d || negb (is_some (sd_blend d)) = true -> sd_blend (sdiv_rt d) = sd_blend d.
+Proof. unfold sdiv_rt. destruct (sd_sig d), (sd_blend d); simpl; intro H; try reflexivity; discriminate. Qed.
+
 Section Persist.
   (* PSDImage.save to bytes followed by PSDImage.open, as seen on one layer.
      ASSUMPTION (tested by the harness on every generated case by a real save + open): a layer whose fields
@@ -397,27 +432,25 @@ Section Persist.
   Variable save_open : layer -> ares layer.
   Hypothesis save_open_stored : forall s, writable s = true -> save_open s = AOk (stored s).
 
-  Lemma persist_get a s :
-    writable s = true -> persist_get_guard a s = true ->
-    exists s', save_open s = AOk s' /\ get a s' = get a s.
+  Lemma persist_get c a s :
+    writable s = true -> persist_get_guard c a s = true ->
+    exists s', save_open s = AOk s' /\ get c a s' = get c a s.
   Proof.
     intros W G. exists (stored s). split; [apply save_open_stored; assumption|].
     destruct a; try reflexivity.
     - unfold get, get_name. simpl. simpl in G. destruct (l_luni s); simpl; [|reflexivity].
       rewrite (utf16_stable_eq _ G). reflexivity.
-    - unfold get, get_blend. simpl. simpl in G. unfold divider_signed in G.
+    - unfold get, get_blend. rewrite setting_stored. simpl l_kind. simpl in G. unfold divider_signed in G.
       destruct (is_group (l_kind s)); [|reflexivity]. simpl in G.
-      destruct (l_lsct s) as [d|]; simpl; [|reflexivity].
-      unfold sdiv_rt. destruct (sd_sig d); simpl in *.
-      + destruct (sd_blend d); reflexivity.
-      + destruct (sd_blend d); [discriminate|reflexivity].
+      destruct (setting c s) as [d|]; simpl; [|reflexivity].
+      rewrite (sdiv_rt_blend _ G). reflexivity.
   Qed.
 
   (* set, then save + open: the getter of the reopened layer returns the value *)
   Lemma persist_set c a v s s1 :
     set c a v s = AOk s1 -> get_set_guard c a v s = true -> persist_set_guard c a v s = true ->
     writable s1 = true ->
-    exists s2, save_open s1 = AOk s2 /\ get a s2 = v.
+    exists s2, save_open s1 = AOk s2 /\ get c a s2 = v.
   Proof.
     intros H G P W. exists (stored s1). split; [apply save_open_stored; assumption|].
     pose proof (get_set _ _ _ _ _ H G) as GS.
@@ -426,10 +459,12 @@ Section Persist.
       unfold get, get_name. simpl. simpl in P. rewrite (utf16_stable_eq _ P). reflexivity.
     - rewrite <- GS. reflexivity.
     - rewrite <- GS. reflexivity.
-    - unfold set_blend in H. destruct (negb (valid_blend z)); [discriminate|].
-      simpl in P, G. unfold get, get_blend in *.
-      destruct (is_group (l_kind s)) eqn:K; inv H; simpl in *; rewrite K in *; [|reflexivity].
-      destruct (l_lsct s) as [d|]; simpl in *; [|exact GS].
+    - simpl in P, G. unfold get, get_blend in *. rewrite setting_stored. simpl l_kind. simpl l_rblend.
+      pose proof (set_blend_form _ _ _ _ H) as [_ (rb & d0 & k0 & E)].
+      assert (K' : l_kind s1 = l_kind s) by (subst s1; reflexivity). rewrite K' in *.
+      destruct (is_group (l_kind s)) eqn:K; [|exact GS].
+      destruct (set_blend_group _ _ _ _ H K) as [S R]. rewrite S in *.
+      destruct (setting c s) as [d|]; simpl in *; [|exact GS].
       unfold sdiv_rt. simpl. destruct (fix_group c); simpl in *; [reflexivity|]. rewrite P. reflexivity.
     - rewrite <- GS. unfold get, get_left, get_box. simpl. reflexivity.
     - rewrite <- GS. unfold get, get_top, get_box. simpl. reflexivity.
@@ -502,8 +537,7 @@ Proof.
     + reflexivity.
   - inv H. apply andb_true_iff. split; assumption.
   - unfold set_opacity in H. destruct ((0 <=? z) && (z <=? 255)); inv H. apply andb_true_iff. split; assumption.
-  - unfold set_blend in H. destruct (negb (valid_blend z)); [discriminate|].
-    destruct (is_group (l_kind s)); inv H; apply andb_true_iff; split; assumption.
+  - apply set_blend_form in H as [_ (rb & d & k & ->)]. apply andb_true_iff; split; assumption.
   - unfold set_left in H. apply andb_true_iff in R as [R1 R2].
     destruct (l_kind s); inv H; (apply andb_true_iff; split; [apply storable_build; assumption|exact N]).
   - unfold set_top in H. apply andb_true_iff in R as [R1 R2].
@@ -520,12 +554,12 @@ Proof. unfold sdiv_rt. destruct (sd_sig d), (sd_blend d); reflexivity. Qed.
 
 (* ------------------------------------------------------------------ the API constructors *)
 Lemma new_group_fixed n o p :
-  divider_ok (new_group fixed_cfg n o p) = true /\ divider_signed (new_group fixed_cfg n o p) = true /\
-  get ABlend (new_group fixed_cfg n o p) = VInt bm_pass.
+  divider_ok fixed_cfg (new_group fixed_cfg n o p) = true /\ divider_signed fixed_cfg (new_group fixed_cfg n o p) = true /\
+  get fixed_cfg ABlend (new_group fixed_cfg n o p) = VInt bm_pass.
 Proof. repeat split. Qed.
 
 Lemma new_pixel_ok c att n t l w h dw dh p :
-  divider_ok (new_pixel c att n t l w h dw dh p) = true /\ divider_signed (new_pixel c att n t l w h dw dh p) = true.
+  divider_ok c (new_pixel c att n t l w h dw dh p) = true /\ divider_signed c (new_pixel c att n t l w h dw dh p) = true.
 Proof. split; reflexivity. Qed.
 
 (* since cc4d99c a created layer can be written whatever its name (shorter than 256 characters) is *)
@@ -536,7 +570,7 @@ Lemma legacy_name_length v : length (legacy_name v) = length v \/ length (legacy
 Proof. unfold legacy_name. destruct (macroman v); [left|right]; reflexivity. Qed.
 
 Lemma new_group_name_writable n o p :
-  Z.of_nat (length n) < 256 -> name_writable (new_group fixed_cfg n o p) = true /\ get AName (new_group fixed_cfg n o p) = VStr n.
+  Z.of_nat (length n) < 256 -> name_writable (new_group fixed_cfg n o p) = true /\ get fixed_cfg AName (new_group fixed_cfg n o p) = VStr n.
 Proof.
   intro L. split; [|reflexivity]. unfold name_writable. simpl. rewrite legacy_name_macroman. simpl.
   apply Z.leb_le. destruct (legacy_name_length n) as [E|E]; rewrite E; simpl; lia.
@@ -544,7 +578,7 @@ Qed.
 
 Lemma new_pixel_name_writable att n t l w h dw dh p :
   Z.of_nat (length n) < 256 ->
-  name_writable (new_pixel fixed_cfg att n t l w h dw dh p) = true /\ get AName (new_pixel fixed_cfg att n t l w h dw dh p) = VStr n.
+  name_writable (new_pixel fixed_cfg att n t l w h dw dh p) = true /\ get fixed_cfg AName (new_pixel fixed_cfg att n t l w h dw dh p) = VStr n.
 Proof.
   intro L. split; [|reflexivity]. unfold name_writable. simpl. rewrite legacy_name_macroman. simpl.
   apply Z.leb_le. destruct (legacy_name_length n) as [E|E]; rewrite E; simpl; lia.
@@ -554,18 +588,18 @@ Qed.
 Lemma history_persist (save_open : layer -> ares layer) :
   (forall s, writable s = true -> save_open s = AOk (stored s)) ->
   forall a l s,
-  divider_ok s = true -> divider_signed s = true -> derived_pos (l_kind s) a = false ->
+  divider_ok fixed_cfg s = true -> divider_signed fixed_cfg s = true -> derived_pos (l_kind s) a = false ->
   writable (run_sets fixed_cfg l s) = true ->
-  (a = AName -> persist_get_guard AName (run_sets fixed_cfg l s) = true) ->
+  (a = AName -> persist_get_guard fixed_cfg AName (run_sets fixed_cfg l s) = true) ->
   exists s', save_open (run_sets fixed_cfg l s) = AOk s' /\
-             get a s' = lastval (l_kind s) a l (get a s) /\ l_pixels s' = l_pixels s.
+             get fixed_cfg a s' = lastval (l_kind s) a l (get fixed_cfg a s) /\ l_pixels s' = l_pixels s.
 Proof.
   intros A a l s D S P W N.
-  assert (G : persist_get_guard a (run_sets fixed_cfg l s) = true).
+  assert (G : persist_get_guard fixed_cfg a (run_sets fixed_cfg l s) = true).
   { destruct a; try reflexivity.
     - apply N; reflexivity.
     - simpl. apply run_sets_divider_signed; [reflexivity|assumption]. }
-  destruct (persist_get save_open A a _ W G) as [s' [E1 E2]].
+  destruct (persist_get save_open A fixed_cfg a _ W G) as [s' [E1 E2]].
   exists s'. split; [assumption|]. split.
   - rewrite E2. apply history_fixed; assumption.
   - rewrite A in E1 by assumption. inv E1. simpl. apply run_sets_pixels.
